@@ -75,6 +75,16 @@ Lexemes(fam) ==
          <<P(cA), P(cUA), FlagI, FlagNI, Open, Comma, Close, ROpen, R12, ClsA>>
     [] fam = "rng" ->   \* ranges whose bounds lie below, on and above the separator
          RngLex \o <<P(cA), P(cSEP), P(cQ)>>
+    [] fam = "cls2" ->   \* classes with several members, negated ranges, escaped members; escaped literals
+         <<P(cA), P(cSEP), P(cQ), L(<<cLB, cA, cB, cRB>>, 0), L(<<cLB, cBANG, cA, cB, cRB>>, 0),
+           L(<<cLB, cBANG, cA, cDASH, cB, cRB>>, 0), L(<<cLB, cA, cBS, cRB, cRB>>, 0), L(<<cLB, cBS, cDASH, cRB>>, 0),
+           L(<<cLB, cA, cSEP, cRB>>, 0), L(<<cBS, cSTAR>>, 0), L(<<cBS, cLB>>, 0), L(<<cBS, cBS>>, 0),
+           FlagI, Open, Comma, Close>>
+    [] fam = "bnd" ->    \* every way of writing repetition bounds (defaults, open ends, equal, reversed, zeros)
+         <<P(cA), P(cSEP), ROpen, RClose, L(<<cCOL, cGT>>, 5), L(<<cCOL, 48, cGT>>, 5), R1, L(<<cCOL, 51, cGT>>, 5),
+           L(<<cCOL, 48, cCOM, cGT>>, 5), L(<<cCOL, 50, cCOM, cGT>>, 5), L(<<cCOL, cCOM, 50, cGT>>, 5),
+           L(<<cCOL, 48, cCOM, 48, cGT>>, 5), L(<<cCOL, 49, cCOM, 49, cGT>>, 5), L(<<cCOL, 51, cCOM, 50, cGT>>, 5),
+           L(<<cCOL, 48, 50, cGT>>, 5), L(<<cCOL, 50, cCOM, 51, cGT>>, 5), L(<<cCOL, cCOM, cGT>>, 5)>>
     [] fam = "deep" ->
          <<P(cA), P(cSEP), Open, Comma, Close, ROpen, R12, R01>>
 
